@@ -62,7 +62,8 @@ func GetJsonDataType(t dsl.Type) JsonDataType {
 		case dsl.ComplexFloat32, dsl.ComplexFloat64:
 			return JsonArray
 		case dsl.Date, dsl.Time, dsl.DateTime:
-			return JsonNumber
+			// dates, times and datetimes are formatted as JSON strings
+			return JsonString
 		default:
 			panic(fmt.Sprintf("unexpected primitive type %s", td))
 		}
